@@ -8,10 +8,10 @@ use std::os::unix::process::ExitStatusExt;
 use std::process::{Command, Stdio};
 use std::time::{Duration, Instant};
 
-pub const CONSTRUCTS: [&str; 29] = [
+pub const CONSTRUCTS: [&str; 33] = [
     "neg", "not", "add", "and", "call", "builtin", "list", "map", "ifcond", "ifelse", "paren", "index", "contains", "listfirst",
     "listcomma", "listmap", "mapcomma", "ifthen", "callsum", "subright", "string", "negidx", "listidx", "mapidx", "indexnum",
-    "skipeq", "skipand", "skipor", "skipif",
+    "skipeq", "skipand", "skipor", "skipif", "skiplist", "skipmap", "skipcallarg", "escapes",
 ];
 pub const OPS: [&str; 8] = ["parse", "parse-rule", "display", "debug", "clone", "compare", "drop", "evaluate"];
 pub const STACKS: [(&str, usize); 2] = [("main8M", 8 << 20), ("worker2M", 2 << 20)];
@@ -89,11 +89,11 @@ fn known_safe(ctx: &Ctx, sig: &str) -> Option<(usize, String)> {
 
 pub fn run(ctx: &Ctx) {
     ctx.set_rule(
-        "Generated: expression texts of 29 recursive constructs (unary - and ! chains, left-deep a+a+..., and-chains, nested user \
+        "Generated: expression texts of 33 recursive constructs (unary - and ! chains, left-deep a+a+..., and-chains, nested user \
          calls, nested built-in calls, nested lists with the nested element last / first / before a trailing comma / inside a map, \
          nested maps (also with trailing comma), if nested in condition / then / else, parentheses, index chains, nested contains, \
          right-nested subtraction, calls of sums, one long string literal of escapes, deep terms followed by a numeric index, numeric \
-         index chains, and deep operands in never-evaluated positions of ==, and, or, if) x depth on a geometric ladder 16, 24, 32, ... (x1.5 / x1.33 steps) up to 2^15 (quick) / 2^17 \
+         index chains, and deep operands in never-evaluated positions of ==, and, or, if) x depth on a geometric ladder 16, 24, 32, ... (x1.5 / x1.33 steps) up to 2^17 (quick) / 2^18 \
          (thorough) x operation in {parse, parse as rule, display, debug, clone, compare, drop, evaluate} x stack in {8 MiB, 2 MiB}; \
          each case is one child process whose operation runs on a thread of exactly that stack size; trees are obtained by parsing \
          the text and leaked after the operation so that only the named operation recurses. Each (construct, operation, stack) \
@@ -104,7 +104,7 @@ pub fn run(ctx: &Ctx) {
     );
     ctx.assume("release profile of the harness (opt-level 2) and the two pinned stack sizes; thresholds are relative to those");
 
-    let max_pow = ctx.tier.pick(15u32, 17u32);
+    let max_pow = ctx.tier.pick(17u32, 18u32);
     let rungs = ladder(max_pow);
     let mut triples = vec![];
     for c in CONSTRUCTS {
@@ -206,8 +206,10 @@ pub fn run(ctx: &Ctx) {
     ctx.finish_phase("depth-ladders", acc, false, t0);
     if let Some(p) = infra_problem {
         eprintln!("C19 infrastructure problem: {p}");
-        ctx.finish();
-        std::process::exit(2);
+        if !ctx.has_failed() {
+            ctx.finish();
+            std::process::exit(2);
+        }
     }
 }
 
